@@ -3658,7 +3658,7 @@ class Scene:
         aircraft_object = self._airplanes[aircraft_name]
         model_dict = copy.deepcopy(aircraft_object._input_dict)
         model_dict.pop("wings")
-        model_dict.pop("airfoils")
+        model_dict.pop("airfoils", None)
 
         # Store params
         model_dict["units"] = self._unit_sys
